@@ -14,6 +14,7 @@ const (
 	simAfterReserve  = 7
 	simKeyChecked    = 8
 	simSnapshotPhase = 9
+	simIndexBuild    = 10
 )
 
 func simYield(*Collection, uint8, uint32) {}
